@@ -742,6 +742,11 @@ class Interp:
     def getattr(self, obj, name, node):
         ctx = self.ctx
         o = ctx.deref(obj)
+        hook = getattr(self.c, "getattr_hook", None)
+        if hook is not None:
+            r = hook(ctx, self, obj, name)
+            if r is not None:
+                return r
         if isinstance(o, VObj):
             if name in o.fields:
                 return o.fields[name]
@@ -958,6 +963,9 @@ class Interp:
             ctx.assume(z3.Implies(z3.Not(res), z3.ForAll(
                 [j], z3.Implies(z3.And(j >= 0, j < c.n), z3.Select(c.a, j) != xt))))
             return res
+        if isinstance(c, VTuple):
+            tests = [self.equal(ctx.deref(item), x, node) for item in c.items]
+            return z3.Or(*tests) if tests else z3.BoolVal(False)
         if hasattr(c, "contains"):
             return c.contains(self, x)
         self.unsupported(node, "membership in %r" % (c,))
